@@ -19,7 +19,8 @@ open Rtsp.Ledger Rtsp.Facts.Ledger
 
 /-- **The code still has the shape the model mirrors** (facts regenerated from /repo on every run):
 the `chRemoveConn` rule, the tear-down orders of `ServerConn.run` / `ServerSession.run`, the read
-deadlines (armed before the first byte; disabled only while recording over UDP; restored by PAUSE), every 400 / 454 returned
+deadlines (armed before the first byte; disabled only while recording over UDP; restored by PAUSE), the write deadlines in front of every response, interleaved frame, tunnel
+answer and UDP datagram, every 400 / 454 returned
 together with an error, the response written before the error is returned, frames / responses in
 `readFuncStandard` end the connection, `wsNetConn.Close` does not panic, a failed RECORD is undone. -/
 theorem code_shape :
@@ -29,7 +30,8 @@ theorem code_shape :
     recordDisablesDeadline = true ∧ tcpReaderDeadlines = 4 ∧ wsCloseImplemented = true ∧
     recordStartFailureUndone = true ∧ udpTimerArmedOnPlayAndRecord = 4 ∧ sessionNotFoundIsError = true ∧
     badRequestSitesConn = badRequestAllConn ∧ badRequestSitesSession = badRequestAllSession ∧
-    pauseRearmsDeadlines = true := by
+    pauseRearmsDeadlines = true ∧ responseWriteDeadline = true ∧ frameWriteDeadlineRTP = true ∧
+    frameWriteDeadlineRTCP = true ∧ tunnelWriteDeadlines = 2 ∧ udpWriteDeadline = true := by
   decide
 
 /-! ## every input is answered or the connection is closed -/
